@@ -547,9 +547,37 @@ pub fn record(args: &Args) {
             let oh = oh.with_context(ctx.context());
             let expr_json = astjson::expr(&parsed);
 
+            // years written on a month or a date of the expression (`2020Dec`, `2022 Dec 20-Jan 10`): this is where such a range ends
+            // for good and a hint may run off to the end of time. The critical days of these years are always asked, the others
+            // every `every`-th, rotating with the seed.
+            let mut anchored: Vec<i32> = Vec::new();
+            for r in &parsed.rules {
+                for md in &r.day_selector.monthday {
+                    use opening_hours_syntax::rules::day::{Date, MonthdayRange};
+                    match md {
+                        MonthdayRange::Month { year: Some(y), .. } => anchored.push(i32::from(*y)),
+                        MonthdayRange::Date { start, end } => {
+                            for d in [&start.0, &end.0] {
+                                match d {
+                                    Date::Fixed { year: Some(y), .. } | Date::Easter { year: Some(y) } => anchored.push(i32::from(*y)),
+                                    _ => {}
+                                }
+                            }
+                        }
+                        _ => {}
+                    }
+                }
+            }
+            anchored.retain(|y| (1901..9999).contains(y));
+
             for day in critical(&parsed, &ctx) {
                 k += 1;
-                if k % every != 0 {
+                let always = {
+                    use chrono::Datelike;
+                    let y = date_of_daynum(day).year();
+                    anchored.len() <= 3 && anchored.iter().any(|a| *a == y || *a + 1 == y)
+                };
+                if k % every != 0 && !always {
                     continue;
                 }
                 work += opening_hours::verif::take_stats().schedule_at_calls;
